@@ -22,11 +22,11 @@ const (
 	pkInt
 	pkBool
 	pkIface
-	pkStrings  // []string
-	pkInts     // []int
-	pkMapInt   // map[string]int
+	pkStrings // []string
+	pkInts    // []int
+	pkMapInt  // map[string]int
 	pkTime
-	pkDecimal  // *decimal.Big
+	pkDecimal // *decimal.Big
 	pkFloat64
 	pkInt8
 	pkIfaces // []interface{}
@@ -462,9 +462,15 @@ func VP_C11_results() {
 		"rInt64": func() (int64, error) { return 1 << 40, mk() },
 		"rF32":   func() (float32, error) { return 0.5, mk() },
 		"rF64":   func() (float64, error) { return 0.1, mk() },
+		// the same Go numbers behind an interface-typed result
+		"rIfInt": func() (interface{}, error) { return 41, mk() },
+		"rIfI64": func() (interface{}, error) { return int64(1 << 41), mk() },
+		"rIfF64": func() (interface{}, error) { return 2.5, mk() },
+		"rIfI32": func() (interface{}, error) { return int32(-9), mk() },
+		"rIfF32": func() (interface{}, error) { return float32(0.25), mk() },
 	}
-	names := []string{"rInt", "rInt32", "rInt64", "rF32", "rF64"}
-	want := []float64{-3, 40, 1 << 40, 0.5, 0.1}
+	names := []string{"rInt", "rInt32", "rInt64", "rF32", "rF64", "rIfInt", "rIfI64", "rIfF64", "rIfI32", "rIfF32"}
+	want := []float64{-3, 40, 1 << 40, 0.5, 0.1, 41, 1 << 41, 2.5, -9, 0.25}
 	i := vpChoice("fn", len(names))
 	r := NewRunner()
 	r.SetThis(data)
@@ -482,6 +488,13 @@ func VP_C11_results() {
 	}
 	f, ok := v.(float64)
 	vpAssert("C11/results/go-number-becomes-formula-number", err == nil && ok && f == want[i])
+	// the bare call and its kind
+	calls = 0
+	v2, err2 := r.Resolve(context.Background(), &CallExpression{Expression: vpId(names[i]), Arguments: new(NodeList[Expression])})
+	f2, ok2 := v2.(float64)
+	vpAssert("C11/results/bare-call-is-a-number", err2 == nil && ok2 && f2 == want[i] && calls == 1)
+	v3, err3 := r.Resolve(context.Background(), &TypeOfExpression{Expression: &CallExpression{Expression: vpId(names[i]), Arguments: new(NodeList[Expression])}})
+	vpAssert("C11/results/kind-is-number", err3 == nil && v3 == "number")
 	vpReach("C11/results/value")
 }
 
@@ -507,7 +520,9 @@ func VP_C11_history() {
 	ctx := context.Background()
 	r := NewRunner()
 	num := func(v int64) *LiteralExpression { return vpLit(SK_NumberLiteral, strconv.FormatInt(v, 10)) }
-	callF := func(args ...Expression) *CallExpression { return &CallExpression{Expression: vpId("f"), Arguments: vpList(args...)} }
+	callF := func(args ...Expression) *CallExpression {
+		return &CallExpression{Expression: vpId("f"), Arguments: vpList(args...)}
+	}
 	switch vpChoice("scenario", 4) {
 	case 0: // rebind through SetThisValue to a different signature
 		first := vpBool("firstIsTwoArgs")
@@ -532,7 +547,9 @@ func VP_C11_history() {
 		}
 	case 1: // rebind through an assignment inside a formula: $g = f2, then $g(...)
 		r.SetThis(map[string]interface{}{"f1": f1, "f2": f2})
-		callG := func(args ...Expression) *CallExpression { return &CallExpression{Expression: vpId("$g"), Arguments: vpList(args...)} }
+		callG := func(args ...Expression) *CallExpression {
+			return &CallExpression{Expression: vpId("$g"), Arguments: vpList(args...)}
+		}
 		_, e := r.Resolve(ctx, vpBin(SK_Comma, vpBin(SK_Equals, vpId("$g"), vpId("f1")), callG(num(7))))
 		vpAssert("C11/history/local-function", e == nil && len(log) == 1 && log[0] == "f1(7)")
 		_, e2 := r.Resolve(ctx, vpBin(SK_Comma, vpBin(SK_Equals, vpId("$g"), vpId("f2")), callG(num(8), vpLit(SK_StringLiteral, "t"))))
@@ -568,9 +585,13 @@ func VP_C11_nested() {
 	add := func(s string) { log = append(log, s) }
 	it := strconv.Itoa
 	data := map[string]interface{}{
-		"f3": func(a, b, c int) (int, error) { add("f3(" + it(a) + "," + it(b) + "," + it(c) + ")"); return a + b + c, nil },
+		"f3": func(a, b, c int) (int, error) {
+			add("f3(" + it(a) + "," + it(b) + "," + it(c) + ")")
+			return a + b + c, nil
+		},
 		"g1": func(x int) (int, error) { add("g1(" + it(x) + ")"); return x + 1, nil },
 		"g2": func(x, y int) (int, error) { add("g2(" + it(x) + "," + it(y) + ")"); return x + y, nil },
+		"mk": func(x int) ([]interface{}, error) { add("mk(" + it(x) + ")"); return []interface{}{x, x + 1}, nil },
 		"v3": func(a int, rest ...int) (int, error) {
 			s := "v3(" + it(a)
 			for _, r := range rest {
@@ -592,6 +613,8 @@ func VP_C11_nested() {
 		{"f3(g1(1), g1(2), g1(3))", []string{"g1(1)", "g1(2)", "g1(3)", "f3(2,3,4)"}, 9},
 		{"v3(1, g1(4), 3, g2(1, 1))", []string{"g1(4)", "g2(1,1)", "v3(1,5,3,2)"}, 4},
 		{"g2(7, f3(1, g1(1), 1))", []string{"g1(1)", "f3(1,2,1)", "g2(7,4)"}, 11},
+		{"v3(g1(1), mk(5)...)", []string{"g1(1)", "mk(5)", "v3(2,5,6)"}, 4},
+		{"v3(g1(1), mk(g1(3))...)", []string{"g1(1)", "g1(3)", "mk(4)", "v3(2,4,5)"}, 4},
 	}
 	p := pool[vpChoice("f", len(pool))]
 	r := NewRunner()
